@@ -80,11 +80,14 @@ Section Ctxs.
                      In x (aids (l1 ++ (k, c) :: l2)) \/
                      (exists m, sa c' = Some (x, m) /\ sa c = None /\ ~ In x (aids (l1 ++ (k, c) :: l2)) /\
                                 (forall k0 c0, In (k0, c0) (l1 ++ (k, c) :: l2) -> ra c0 <> Some x))).
-    { intros x. rewrite !aids_mid, !in_app_iff. intros [H|[H|H]]; auto.
+    { intros x Hx. rewrite (aids_mid l1 k c' l2), !in_app_iff in Hx.
+      assert (Ho : forall y, In y (aids l1) \/ In y (aids l2) -> In y (aids (l1 ++ (k, c) :: l2))).
+      { intros y Hy. rewrite aids_mid, !in_app_iff. tauto. }
+      destruct Hx as [H|[H|H]]; auto.
       destruct HS as [E|[E|[a [m [E [E0 [Hn Hr]]]]]]].
-      - rewrite E in H. auto.
+      - rewrite E in H. left. rewrite aids_mid, !in_app_iff. auto.
       - rewrite E in H. destruct H.
-      - rewrite E in H. cbn in H. destruct H as [<-|[]]. right. exists m. rewrite !aids_mid, !in_app_iff in Hn. auto. }
+      - rewrite E in H. cbn in H. destruct H as [<-|[]]. right. exists m. auto. }
     split; [|split].
     - rewrite map_app in *. exact K.
     - rewrite aids_mid in *. destruct HS as [E|[E|[a [m [E [E0 [Hn Hr]]]]]]].
@@ -130,3 +133,351 @@ Section Ctxs.
     wsum G (attl (l1 ++ (k, c) :: l2)) = wsum G (attl l1) + wsum G (opt_list (sa c)) + wsum G (attl l2).
   Proof. rewrite attl_mid, !wsum_app. lia. Qed.
 End Ctxs.
+
+(* ================================ REP ================================ *)
+Section RepSec.
+  Import ReqRepBacktrace ReqModel RepModel ReqRepProofs.
+
+  Lemma lookup_split {A} k (l : list (N * A)) c : lookup k l = Some c ->
+    exists l1 l2, l = l1 ++ (k, c) :: l2 /\ forall c0 c', assoc_set k c' (l1 ++ (k, c0) :: l2) = l1 ++ (k, c') :: l2.
+  Proof.
+    induction l as [|[k0 v] l IH]; cbn; [discriminate|]. destruct (N.eqb_spec k0 k) as [->|Hk].
+    - intros E. inversion E; subst. exists [], l. split; [reflexivity|]. intros c0 c'. cbn. now rewrite N.eqb_refl.
+    - intros E. destruct (IH E) as [l1 [l2 [-> Hs]]]. exists ((k0, v) :: l1), l2. split; [reflexivity|].
+      intros c0 c'. cbn. destruct (N.eqb_spec k0 k); [contradiction|]. now rewrite Hs.
+  Qed.
+  Lemma in_lookup {A} k (c : A) l : NoDup (map fst l) -> In (k, c) l -> lookup k l = Some c.
+  Proof.
+    induction l as [|[k0 v] l IH]; cbn; intros Hn Hi; [destruct Hi|]. inversion Hn; subst.
+    destruct Hi as [E|Hi].
+    - inversion E; subst. now rewrite N.eqb_refl.
+    - destruct (N.eqb_spec k0 k); [subst; exfalso; apply H1; apply in_map_iff; exists (k, c); auto|]. auto.
+  Qed.
+  Lemma in_fst_filter {B} (f : N * B -> bool) q l : In q (map fst (filter f l)) -> In q (map fst l).
+  Proof. rewrite !in_map_iff. intros [x [E Hi]]. apply filter_In in Hi. exists x. tauto. Qed.
+  Lemma in_fst_del {B} p q (l : list (N * B)) : In q (map fst (assoc_del p l)) -> q <> p /\ In q (map fst l).
+  Proof.
+    unfold assoc_del. rewrite !in_map_iff. intros [x [E Hi]]. apply filter_In in Hi. destruct Hi as [Hi Hb].
+    split; [|exists x; tauto]. subst q. destruct (N.eqb_spec (fst x) p); [discriminate|auto].
+  Qed.
+  Lemma find_pctx_some f l k c : find_pctx f l = Some (k, c) -> f c = true /\ In (k, c) l.
+  Proof.
+    induction l as [|[k0 c0] l IH]; cbn; [discriminate|]. destruct (f c0) eqn:E.
+    - intros H. inversion H; subst. auto.
+    - intros H. destruct (IH H). auto.
+  Qed.
+  Lemma find_saio_none a l : find_pctx (saio_is a) l = None -> ~ In a (aids rc_saio l).
+  Proof.
+    induction l as [|[k0 c0] l IH]; cbn; [tauto|]. destruct (saio_is a c0) eqn:E; [discriminate|].
+    intros H. unfold aids, attl. cbn [flat_map snd]. fold (attl rc_saio l). rewrite map_app, in_app_iff.
+    intros [Hi|Hi]; [|exact (IH H Hi)]. unfold saio_is in E. destruct (rc_saio c0) as [[b m]|]; cbn in Hi; [|tauto].
+    destruct Hi as [<-|[]]. now rewrite N.eqb_refl in E.
+  Qed.
+
+  (* the invariant: contexts well keyed (CInv), and a pipe with a send in flight is busy
+     (so a direct send goes to a pipe with nothing in flight) *)
+  Definition RInv (s : rep) : Prop :=
+    CInv rc_saio rc_raio (rp_ctxs s) /\ (forall p, In p (map fst (rp_sending s)) -> In p (rp_busy s)).
+  (* the environment: an aio is submitted once at a time; cancel with an error; a context id is opened once *)
+  Definition rep_ok (s : rep) (o : pop) : Prop :=
+    match o with
+    | PSend _ a _ _ => ~ In a (aids rc_saio (rp_ctxs s)) /\ (forall k c, In (k, c) (rp_ctxs s) -> rc_raio c <> Some a)
+    | PRecv _ a _ => ~ In a (aids rc_saio (rp_ctxs s))
+    | PCancel _ rv => rv <> 0%N
+    | PCtxOpen k => ~ In (k + 1)%N (map fst (rp_ctxs s))
+    | _ => True
+    end.
+
+  Lemma rep_inv_init : RInv rep_init.
+  Proof.
+    split; [split; [|split]|]; cbn.
+    - constructor; [tauto|constructor].
+    - constructor.
+    - tauto.
+    - tauto.
+  Qed.
+
+  Lemma w_rep F s : w_omega F view_rep s =
+    wsum (fun m => F (OProto, body m)) (map snd (rp_holding s))
+    + wsum (fun x => F (OPipe (fst x), body (snd x))) (rp_sending s)
+    + wsum (fun x => F (OAio (fst x), body (snd x))) (attl rc_saio (rp_ctxs s)).
+  Proof. reflexivity. Qed.
+  Lemma skey_rep s o a : (forall c a' nb m, o <> PSend c a' nb m) ->
+    send_key view_rep s o a = att_key a (attl rc_saio (rp_ctxs s)).
+  Proof. intros H. now rewrite send_key_other. Qed.
+
+  (* rep0_pipe_close's loop over the pipe's send queue: each queued reply is taken and freed *)
+  Lemma close_sendq_spec F s0 o (Ho : forall c a' nb m, o <> PSend c a' nb m) ks : forall s1 s2 outs,
+    close_sendq s1 ks = (s2, outs) ->
+    CInv rc_saio rc_raio (rp_ctxs s1) ->
+    (forall a m, In (a, m) (attl rc_saio (rp_ctxs s1)) -> att_key a (attl rc_saio (rp_ctxs s0)) = Some (body m)) ->
+    rp_holding s2 = rp_holding s1 /\ rp_sending s2 = rp_sending s1 /\ rp_busy s2 = rp_busy s1 /\
+    CInv rc_saio rc_raio (rp_ctxs s2) /\
+    wsum (fun x => F (OAio (fst x), body (snd x))) (attl rc_saio (rp_ctxs s1)) + s_take F view_rep s0 o outs + o_tx F outs
+    = wsum (fun x => F (OAio (fst x), body (snd x))) (attl rc_saio (rp_ctxs s2)) + s_del F view_rep s0 o outs + o_rel F outs.
+  Proof.
+    induction ks as [|k r IH]; intros s1 s2 outs H HC HK; cbn [close_sendq] in H.
+    - inversion H; subst. cbn. split; [|split; [|split; [|split]]]; auto.
+    - unfold rp_get in H. destruct (lookup k (rp_ctxs s1)) as [c|] eqn:EL; [|eauto].
+      destruct (rc_saio c) as [[a m]|] eqn:ES; [|eauto].
+      destruct (close_sendq (rp_put s1 k (mkPctx (rc_pipe c) (rc_bt c) None (rc_raio c))) r) as [s3 o3] eqn:EC.
+      inversion H; subst; clear H.
+      destruct (lookup_split _ _ _ EL) as [l1 [l2 [E1 E2]]].
+      assert (E3 : rp_ctxs (rp_put s1 k (mkPctx (rc_pipe c) (rc_bt c) None (rc_raio c)))
+                   = l1 ++ (k, mkPctx (rc_pipe c) (rc_bt c) None (rc_raio c)) :: l2).
+      { unfold rp_put. cbn [rp_ctxs rp_set_ctxs]. rewrite E1. apply E2. }
+      destruct (IH _ _ _ EC) as (H1 & H2 & H3 & H4 & H5).
+      + rewrite E3. rewrite E1 in HC. eapply cinv_set; [exact HC|cbn; auto|cbn; auto].
+      + intros a0 m0 Hi. apply HK. rewrite E3 in Hi. rewrite E1. rewrite attl_mid in *.
+        cbn [rc_saio opt_list app] in Hi. rewrite !in_app_iff in *. tauto.
+      + split; [|split; [|split; [|split]]]; auto. rewrite E3 in H5. rewrite E1.
+        cbn [s_take s_del o_tx o_rel]. rewrite (skey_rep s0 o a Ho).
+        rewrite (HK a m) by (rewrite E1, attl_mid, ES; rewrite !in_app_iff; right; left; left; reflexivity).
+        change (E_OK =? 0)%N with true. cbv iota.
+        rewrite !wsum_attl_mid in *. cbn [rc_saio] in H5. rewrite ES. cbn [opt_list] in *.
+        rewrite ?wsum_cons, ?wsum_nil in *. cbn [fst snd]. lia.
+  Qed.
+
+  (* rep0_ctx_close: the queued send and the pending receive are aborted *)
+  Lemma rep_ctx_close_spec s k cx s1 o1 :
+    CInv rc_saio rc_raio (rp_ctxs s) -> lookup k (rp_ctxs s) = Some cx -> rep_ctx_close s k cx = (s1, o1) ->
+    exists l1 l2, rp_ctxs s = l1 ++ (k, cx) :: l2 /\
+      rp_ctxs s1 = l1 ++ (k, mkPctx (rc_pipe cx) (rc_bt cx) None None) :: l2 /\
+      rp_holding s1 = rp_holding s /\ rp_sending s1 = rp_sending s /\ rp_busy s1 = rp_busy s /\
+      forall F o, (forall c a' nb m, o <> PSend c a' nb m) ->
+        wsum (fun x => F (OAio (fst x), body (snd x))) (attl rc_saio (rp_ctxs s)) + s_take F view_rep s o o1 + o_tx F o1
+        = wsum (fun x => F (OAio (fst x), body (snd x))) (attl rc_saio (rp_ctxs s1)) + s_del F view_rep s o o1 + o_rel F o1.
+  Proof.
+    intros HC EL H. destruct (lookup_split _ _ _ EL) as [l1 [l2 [E1 E2]]]. exists l1, l2.
+    pose proof (lookup_in _ _ _ EL) as Hin. destruct HC as (K & N & R).
+    unfold rep_ctx_close in H.
+    destruct (rc_saio cx) as [[sa m0]|] eqn:ES; destruct (rc_raio cx) as [ra|] eqn:ER; inversion H; subst; clear H;
+      cbn [rp_ctxs rp_holding rp_sending rp_busy rp_set_sendq rp_set_recvq rp_put rp_set_ctxs];
+      (split; [exact E1|]); (split; [rewrite E1; apply E2|]); (split; [reflexivity|]); (split; [reflexivity|]);
+      (split; [reflexivity|]); intros F o Ho; cbn [app s_take s_del o_tx o_rel]; rewrite ?(skey_rep s o _ Ho);
+      rewrite ?(cinv_att_key rc_saio rc_raio _ _ _ _ _ (conj K (conj N R)) Hin ES);
+      rewrite ?(att_key_notin _ _ (R _ _ _ Hin ER));
+      change (E_CLOSED =? 0)%N with false; cbv iota;
+      rewrite E1, !E2, !wsum_attl_mid; cbn [rc_saio]; rewrite ES; cbn [opt_list]; wnorm; cbn [fst snd]; lia.
+  Qed.
+
+  Ltac rproj := cbn [rp_ctxs rp_pipes rp_busy rp_pclosed rp_holding rp_recvq rp_sendq rp_sending rp_readable
+                     rp_writable rp_ttl rp_set_ctxs rp_set_pipes rp_set_holding rp_set_recvq rp_set_sendq
+                     rp_set_sending rp_set_readable rp_set_writable rp_set_ttl rp_put] in *.
+  Ltac ifrep := repeat match goal with
+    | |- context [if ?b then ?x else ?y] => match type of x with rep => destruct b end
+    end.
+  Ltac law1 := cbv zeta;
+    match goal with |- context [v_extra view_rep ?s ?o ?outs] => change (v_extra view_rep s o outs) with (@nil pmsg) end;
+    match goal with |- context [v_clones view_rep ?s ?o ++ v_dups view_rep ?s ?o] =>
+      change (v_clones view_rep s o ++ v_dups view_rep s o) with (@nil key) end;
+    cbn [map]; rewrite app_nil_r, wsum_nil, !w_rep.
+  Ltac law0 := intros F; law1.
+  Ltac lawfin := rproj; cbn [op_add op_del s_take s_del o_tx o_rel]; rewrite ?send_key_self;
+    wnorm; unfold body; cbn [fst snd rep_send rep_deliver pm_body pm_hdr N.eqb E_OK E_STATE E_AGAIN E_CLOSED]; try lia.
+
+  Lemma rep_step_main pf s o s' outs :
+    pf_saio pf = true -> RInv s -> rep_ok s o -> rep_step pf s o = (s', outs) ->
+    RInv s' /\ law_sum view_rep s o s' outs.
+  Proof.
+    intros Hpf HI Hok H. pose proof HI as [HC HB]. pose proof HC as (K & N & R).
+    destruct o as [c a nb m|c a nb|a rv|p peer|p|p rv|p rv m|c op|c|c| |now]; cbn [rep_step rep_ok] in *.
+    - (* PSend *)
+      unfold rp_get in H. destruct (lookup (ckey c) (rp_ctxs s)) as [cx|] eqn:EL.
+      2:{ inversion H; subst. split; [exact HI|]. law0. lawfin. }
+      destruct (lookup_split _ _ _ EL) as [l1 [l2 [E1 E2]]].
+      unfold rep_ctx_send in H. rewrite Hpf in H. cbn [andb] in H.
+      destruct (rc_saio cx) as [sx|] eqn:ES.
+      { inversion H; subst. split; [exact HI|]. law0. lawfin. }
+      assert (HC' : CInv rc_saio rc_raio (l1 ++ (ckey c, cx) :: l2)) by (rewrite <- E1; exact HC).
+      repeat match type of H with context [if ?b then ?x else ?y] => match type of x with rep => destruct b end end.
+      all: rproj.
+      all: assert (GEN : forall s'' outs'' c',
+                 (s', outs) = (s'', outs'') -> rp_ctxs s'' = l1 ++ (ckey c, c') :: l2 ->
+                 rp_holding s'' = rp_holding s -> rp_sending s'' = rp_sending s -> rp_busy s'' = rp_busy s ->
+                 rc_saio c' = None -> rc_raio c' = rc_raio cx ->
+                 (outs'' = [Complete a E_STATE None] \/ outs'' = [Complete a E_AGAIN None] \/
+                  exists m', outs'' = [Complete a E_OK None; Free m'] /\ pm_body m' = pm_body m) ->
+                 RInv s' /\ law_sum view_rep s (PSend c a nb m) s' outs).
+      all: try (intros s'' outs'' c' Hs Ec Eh Es Eb Esa Era Ho; inversion Hs; subst s' outs; clear Hs; split;
+                [split; [rewrite Ec; eapply cinv_set; [exact HC'|rewrite Esa; auto|rewrite Era; auto]
+                        |rewrite Es, Eb; exact HB]
+                |law0; rewrite Ec, Eh, Es, E1, !wsum_attl_mid, Esa, ES;
+                 destruct Ho as [->|[->|[m' [-> Em]]]]; lawfin; rewrite ?Em; lia]).
+      all: destruct (rc_bt cx) as [|b0 bt] eqn:EB; cbn [is_nil] in H;
+           [eapply GEN; [symmetry; exact H|rproj; rewrite E1, !E2; reflexivity|(reflexivity || exact ES)..|auto]|].
+      all: destruct (has_id (rc_pipe cx) (rp_pipes s)); cbn [negb] in H;
+           [|eapply GEN; [symmetry; exact H|rproj; rewrite E1, !E2; reflexivity|(reflexivity || exact ES)..|right; right; eexists; split; reflexivity]].
+      all: destruct (has_id (rc_pipe cx) (rp_busy s)) eqn:EBusy; cbn [negb] in H.
+      all: try (destruct nb; [destruct (pf_nbsend pf);
+                 (eapply GEN; [symmetry; exact H|rproj; rewrite E1, !E2; reflexivity|(reflexivity || exact ES)..|auto])|]).
+      all: injection H as Hs' Ho'; subst s' outs; clear GEN; rewrite E1 in Hok; destruct Hok as [Hok1 Hok2].
+      all: try (apply has_id_false in EBusy;
+                assert (EP : ~ In (rc_pipe cx) (map fst (rp_sending s))) by (intros Hx; apply EBusy, HB, Hx)).
+      all: (split; [split; rproj|]).
+      all: try (rewrite E1, !E2; eapply cinv_set; [exact HC'|cbn [rc_saio rc_raio]; rewrite ?ES; auto|cbn [rc_saio rc_raio]; auto]).
+      all: try (intros q; cbn [map fst]; rewrite in_app_iff; intros [<-|Hq];
+                [right; left; reflexivity|left; apply HB; eapply in_fst_filter; exact Hq]).
+      all: try exact HB.
+      all: try (right; right; eexists; eexists; split; [reflexivity|]; split; [reflexivity|]; split; assumption).
+      all: law0; lawfin; rewrite E1, !E2, !wsum_attl_mid; cbn [rc_saio]; rewrite ES; cbn [opt_list];
+           try (unfold assoc_del; rewrite (filter_keep_notin' _ _ EP)); wnorm; cbn [fst snd pm_body rep_send rep_deliver]; try lia.
+    - (* PRecv *)
+      assert (KN : forall rv, law_sum view_rep s (PRecv c a nb) s [Complete a rv None]).
+      { intros rv. law0. cbn [op_add op_del s_take s_del o_tx o_rel]. rewrite skey_rep by (intros; discriminate).
+        rewrite (att_key_notin _ _ Hok). lia. }
+      unfold rp_get in H. destruct (lookup (ckey c) (rp_ctxs s)) as [cx|] eqn:EL.
+      2:{ inversion H; subst. split; [exact HI|apply KN]. }
+      destruct (lookup_split _ _ _ EL) as [l1 [l2 [E1 E2]]].
+      assert (HC' : CInv rc_saio rc_raio (l1 ++ (ckey c, cx) :: l2)) by (rewrite <- E1; exact HC).
+      unfold rep_ctx_recv in H. destruct (rp_holding s) as [|[p m] rest] eqn:EH.
+      + destruct nb; [inversion H; subst; split; [exact HI|apply KN]|].
+        destruct (rc_raio cx) eqn:ER; [inversion H; subst; split; [exact HI|apply KN]|].
+        inversion H; subst; clear H. split.
+        * split; rproj; [|exact HB]. rewrite E1, !E2. eapply cinv_set; [exact HC'|cbn; auto|].
+          right; right. exists a. rewrite <- E1. cbn. auto.
+        * law0. lawfin. rewrite EH, E1, !E2, !wsum_attl_mid. cbn [rc_saio]. lia.
+      + unfold rep_take in H.
+        repeat match type of H with context [if ?b then ?x else ?y] => match type of x with rep => destruct b end end.
+        all: inversion H; subst; clear H; (split; [split; rproj; [|exact HB]|]).
+        all: try (rewrite E1, !E2; eapply cinv_set; [exact HC'|cbn; auto|cbn; auto]).
+        all: law0; lawfin; rewrite EH, E1, !E2, !wsum_attl_mid; cbn [rc_saio map]; wnorm; cbn [fst snd]; lia.
+    - (* PCancel *)
+      destruct (find_pctx (saio_is a) (rp_ctxs s)) as [[k cx]|] eqn:EF.
+      + destruct (find_pctx_some _ _ _ _ EF) as [Hf Hin]. pose proof (in_lookup _ _ _ K Hin) as EL.
+        destruct (lookup_split _ _ _ EL) as [l1 [l2 [E1 E2]]].
+        assert (HC' : CInv rc_saio rc_raio (l1 ++ (k, cx) :: l2)) by (rewrite <- E1; exact HC).
+        unfold saio_is in Hf. destruct (rc_saio cx) as [[a' m0]|] eqn:ES; [|discriminate].
+        apply N.eqb_eq in Hf. subst a'.
+        inversion H; subst; clear H. split.
+        * split; rproj; [|exact HB]. rewrite E1, !E2. eapply cinv_set; [exact HC'|cbn; auto|cbn; auto].
+        * law0. cbn [op_add op_del s_take s_del o_tx o_rel]. rewrite skey_rep by (intros; discriminate).
+          rewrite (cinv_att_key _ _ _ _ _ _ _ HC Hin ES). destruct (N.eqb_spec rv 0); [contradiction|].
+          lawfin. rewrite E1, !E2, !wsum_attl_mid. cbn [rc_saio]. rewrite ES. cbn [opt_list]. wnorm. cbn [fst snd]. lia.
+      + pose proof (find_saio_none _ _ EF) as Hn.
+        destruct (find_pctx (fun c => opt_is a (rc_raio c)) (rp_ctxs s)) as [[k cx]|] eqn:EF2.
+        2:{ inversion H; subst. split; [exact HI|]. law0. lawfin. }
+        destruct (find_pctx_some _ _ _ _ EF2) as [Hf Hin]. pose proof (in_lookup _ _ _ K Hin) as EL.
+        destruct (lookup_split _ _ _ EL) as [l1 [l2 [E1 E2]]].
+        assert (HC' : CInv rc_saio rc_raio (l1 ++ (k, cx) :: l2)) by (rewrite <- E1; exact HC).
+        inversion H; subst; clear H. split.
+        * split; rproj; [|exact HB]. rewrite E1, !E2. eapply cinv_set; [exact HC'|cbn; auto|cbn; auto].
+        * law0. cbn [op_add op_del s_take s_del o_tx o_rel]. rewrite skey_rep by (intros; discriminate).
+          rewrite (att_key_notin _ _ Hn). lawfin. rewrite E1, !E2, !wsum_attl_mid. cbn [rc_saio]. lia.
+    - (* PPipeStart *)
+      destruct (negb (peer =? PROTO_REQ)%N); inversion H; subst; clear H; (split; [exact HI|law0; lawfin]).
+    - (* PPipeClose *)
+      cbv zeta in H.
+      repeat match type of H with context [if ?b then ?x else ?y] => match type of x with rep => destruct b end end.
+      all: match type of H with context [close_sendq ?x ?ks] => destruct (close_sendq x ks) as [s2 o2] eqn:EC end.
+      all: repeat match type of H with context [if ?b then ?x else ?y] => match type of x with rep => destruct b end end.
+      all: assert (HK : forall a m, In (a, m) (attl rc_saio (rp_ctxs s)) -> att_key a (attl rc_saio (rp_ctxs s)) = Some (body m))
+             by (intros a0 m0 Hi; apply att_key_in; [exact N|exact Hi]).
+      all: pose proof (fun F => close_sendq_spec F s (PPipeClose p) ltac:(intros; discriminate) _ _ _ _ EC HC HK) as SP.
+      all: destruct (SP (fun _ => 0)) as (S1 & S2 & S3 & S4 & _); rproj.
+      all: inversion H; subst; clear H; (split; [split; rproj; [exact S4|rewrite S2, S3; exact HB]|]).
+      all: law0; destruct (SP F) as (_ & _ & _ & _ & S5); rproj; lawfin; rewrite S1, S2;
+           pose proof (wsum_filter_key (fun x => F (OProto, body (snd x))) p (rp_holding s)) as P; unfold assoc_del;
+           unfold body in S5, P; lia.
+    - (* PSendDone *)
+      cbv zeta in H.
+      assert (BD : forall q, In q (map fst (assoc_del p (rp_sending s))) -> In q (remove_id p (rp_busy s))).
+      { intros q Hq. apply in_fst_del in Hq. apply in_remove_id. split; [apply HB|]; tauto. }
+      assert (LW : forall F, w_omega F view_rep s + op_add F view_rep s (PSendDone p rv)
+                   = w_omega F view_rep (rp_set_sending s (assoc_del p (rp_sending s))) + op_del F view_rep s (PSendDone p rv)
+                     + (if (rv =? 0)%N then 0 else wsum (fun m => F (OProto, body m)) (map snd (filter (fun x => (fst x =? p)%N) (rp_sending s))))).
+      { intros F. rewrite !w_rep. rproj. cbn [op_add op_del view_rep VRep.view v_tx].
+        rewrite wsum_tx_of. unfold tx_of.
+        pose proof (wsum_filter_key (fun x => F (OPipe (fst x), body (snd x))) p (rp_sending s)) as P. unfold assoc_del.
+        destruct (rv =? 0)%N; lia. }
+      destruct (N.eqb_spec rv 0) as [->|Hrv]; cbn [negb] in H.
+      2:{ inversion H; subst; clear H. split.
+          - split; rproj; [exact HC|]. intros q Hq. apply HB. eapply in_fst_filter. exact Hq.
+          - intros F. specialize (LW F). cbv zeta.
+            change (v_extra view_rep s (PSendDone p rv) (map Free (map snd (filter (fun x => (fst x =? p)%N) (rp_sending s))) ++ [ClosePipe p])) with (@nil pmsg).
+            change (v_clones view_rep s (PSendDone p rv) ++ v_dups view_rep s (PSendDone p rv)) with (@nil key).
+            cbn [map]. rewrite app_nil_r, wsum_nil. wnorm. cbn [s_take s_del o_tx o_rel]. lia. }
+      change (0 =? 0)%N with true in LW. cbv iota in LW. rproj.
+      destruct (first_on p (rp_sendq s)) as [k|] eqn:EFO.
+      2:{ repeat match type of H with context [if ?b then ?x else ?y] => match type of x with rep => destruct b end end.
+          all: inversion H; subst; clear H; (split; [split; rproj; [exact HC|exact BD]|]).
+          all: intros F; specialize (LW F); revert LW; law1; lawfin. }
+      unfold rp_get in H. rproj. destruct (lookup k (rp_ctxs s)) as [cx|] eqn:EL.
+      2:{ inversion H; subst; clear H; (split; [split; rproj; [exact HC|exact BD]|]).
+          intros F; specialize (LW F); revert LW; law1; lawfin. }
+      destruct (rc_saio cx) as [[a m]|] eqn:ES.
+      2:{ inversion H; subst; clear H; (split; [split; rproj; [exact HC|exact BD]|]).
+          intros F; specialize (LW F); revert LW; law1; lawfin. }
+      destruct (lookup_split _ _ _ EL) as [l1 [l2 [E1 E2]]].
+      assert (HC' : CInv rc_saio rc_raio (l1 ++ (k, cx) :: l2)) by (rewrite <- E1; exact HC).
+      inversion H; subst; clear H. split.
+      + split; rproj.
+        * rewrite E1, !E2. eapply cinv_set; [exact HC'|cbn; auto|cbn; auto].
+        * intros q. cbn [map fst]. rewrite in_app_iff. intros [<-|Hq]; [right; left; reflexivity|left; auto].
+      + intros F; specialize (LW F); revert LW; law1. cbn [op_add op_del s_take s_del o_tx o_rel].
+        rewrite skey_rep by (intros; discriminate).
+        rewrite (cinv_att_key _ _ _ _ _ _ _ HC (lookup_in _ _ _ EL) ES).
+        lawfin. rewrite E1, !E2, !wsum_attl_mid. cbn [rc_saio]. rewrite ES. cbn [opt_list]. wnorm. cbn [fst snd]. lia.
+    - (* PRecvDone *)
+      destruct (N.eqb_spec rv 0) as [->|Hrv]; cbn [negb] in H.
+      2:{ inversion H; subst; clear H. split; [exact HI|]. law0. cbn [op_add]. destruct (N.eqb_spec rv 0); [contradiction|]. lawfin. }
+      assert (RX : forall F, op_add F view_rep s (PRecvDone p 0 m)
+                   = F (OProto, match rep_recv (rp_ttl s) (pm_body m) with BtDeliver m' => body m' | _ => body m end)) by reflexivity.
+      destruct (rep_recv (rp_ttl s) (pm_body m)) as [m'| |] eqn:ER.
+      2,3: inversion H; subst; clear H; (split; [exact HI|]); law0; rewrite RX; lawfin.
+      destruct (has_id p (rp_pclosed s)).
+      { inversion H; subst; clear H; (split; [exact HI|]); law0; rewrite RX; lawfin. }
+      destruct (rp_recvq s) as [|k rest].
+      { inversion H; subst; clear H; (split; [split; rproj; [exact HC|exact HB]|]); law0; rewrite RX; lawfin. }
+      unfold rp_get in H. destruct (lookup k (rp_ctxs s)) as [cx|] eqn:EL.
+      2:{ inversion H; subst; clear H; (split; [split; rproj; [exact HC|exact HB]|]); law0; rewrite RX; lawfin. }
+      destruct (rc_raio cx) as [ra|] eqn:ERA.
+      2:{ inversion H; subst; clear H; (split; [split; rproj; [exact HC|exact HB]|]); law0; rewrite RX; lawfin. }
+      destruct (lookup_split _ _ _ EL) as [l1 [l2 [E1 E2]]].
+      assert (HC' : CInv rc_saio rc_raio (l1 ++ (k, cx) :: l2)) by (rewrite <- E1; exact HC).
+      unfold rep_take in H.
+      repeat match type of H with context [if ?b then ?x else ?y] => match type of x with rep => destruct b end end.
+      all: inversion H; subst; clear H; (split; [split; rproj; [|exact HB]|]).
+      all: try (rewrite E1, !E2; eapply cinv_set; [exact HC'|cbn; auto|cbn; auto]).
+      all: law0; rewrite RX; lawfin; rewrite E1, !E2, !wsum_attl_mid; cbn [rc_saio]; lia.
+    - (* PSetOpt *)
+      destruct c; [inversion H; subst; split; [exact HI|law0; lawfin]|].
+      destruct op; try (inversion H; subst; split; [exact HI|law0; lawfin]).
+      all: match type of H with (if ?b then _ else _) = _ => destruct b end;
+           inversion H; subst; (split; [exact HI|law0; lawfin]).
+    - (* PCtxOpen *)
+      inversion H; subst; clear H. split.
+      + split; rproj; [|exact HB]. apply cinv_snoc; auto.
+      + law0. lawfin. rewrite attl_app. wnorm. cbn. wnorm. lia.
+    - (* PCtxClose *)
+      unfold rp_get in H. destruct (lookup (c + 1)%N (rp_ctxs s)) as [cx|] eqn:EL.
+      2:{ inversion H; subst. split; [exact HI|law0; lawfin]. }
+      destruct (rep_ctx_close s (c + 1)%N cx) as [s1 o1] eqn:ECL.
+      destruct (rep_ctx_close_spec _ _ _ _ _ HC EL ECL) as (l1 & l2 & E1 & E3 & E4 & E5 & E6 & E7).
+      assert (HC1 : CInv rc_saio rc_raio (rp_ctxs s1)).
+      { rewrite E3. rewrite E1 in HC. eapply cinv_set; [exact HC|cbn; auto|cbn; auto]. }
+      assert (ED : assoc_del (c + 1)%N (rp_ctxs s1) = l1 ++ l2).
+      { rewrite E3. unfold assoc_del. apply filter_mid_key. rewrite <- E3. apply HC1. }
+      inversion H; subst; clear H. split.
+      + split; rproj; [|rewrite E5, E6; exact HB]. rewrite ED. rewrite E3 in HC1. eapply cinv_del; exact HC1.
+      + law0. specialize (E7 F (PCtxClose c) ltac:(intros; discriminate)). lawfin. rewrite E4, E5, ED.
+        rewrite E3, wsum_attl_mid in E7. cbn [rc_saio opt_list] in E7. rewrite attl_app. unfold body in E7. wnorm. lia.
+    - (* PSockClose *)
+      unfold rp_get in H. destruct (lookup 0%N (rp_ctxs s)) as [cx|] eqn:EL.
+      2:{ inversion H; subst. split; [exact HI|law0; lawfin]. }
+      destruct (rep_ctx_close_spec _ _ _ _ _ HC EL H) as (l1 & l2 & E1 & E3 & E4 & E5 & E6 & E7). split.
+      + split; [|rewrite E5, E6; exact HB]. rewrite E3. rewrite E1 in HC. eapply cinv_set; [exact HC|cbn; auto|cbn; auto].
+      + law0. specialize (E7 F PSockClose ltac:(intros; discriminate)). lawfin. rewrite E4, E5. unfold body in E7. lia.
+    - (* PTick *)
+      inversion H; subst. split; [exact HI|law0; lawfin].
+  Qed.
+
+
+
+
+
+
+
+
+
+End RepSec.
